@@ -190,6 +190,88 @@ def run_pinned(case, mods, seed):
             "req": [[l, bool(ok)] for l, ok in ctx.req_log], "obs": obs}
 
 
+# ------------------------------------------------------------------------------------ killable worker pool
+
+def _worker_main(tasks, results):
+    for idx in iter(tasks.get, None):
+        results.put(("start", idx, os.getpid()))
+        results.put(("done", idx, run_case(idx)))
+
+
+def _lost_case(idx, why):
+    case = _G["cases"][idx]
+    return dict(id=case.id, paths=0, outcomes={"ok": 0, "raise": 0, "unsupported": 0, "domain": 0, "limit": 0}, truncated=False,
+                error=why, wall=0.0, functions=[], messages=[], allow_unsupported=case.allow_unsupported, bounds=case.bounds,
+                group=case.group, stats=_new_stats(_G["tier"]))
+
+
+def run_pool(order, jobs, tier, on_result):
+    """cases are farmed over forked workers that the parent can kill: z3 does not honour its timeout inside some procedures
+    (seen: nla::powers computing a huge rational power for minutes), and a check must never hang. A case that exceeds its hard
+    wall limit is killed and reported as a harness error (the run is then inconclusive, exit 2, unless it found violations)."""
+    import queue
+    ctxm = mp.get_context("fork")
+    tasks, results = ctxm.Queue(), ctxm.Queue()
+    for i in order:
+        tasks.put(i)
+    limit = float(os.environ.get("VERIF_CASE_HARD_S", "300" if tier == "quick" else "2400"))
+    procs, running, out, pending = {}, {}, [], set(order)
+
+    def spawn():
+        p = ctxm.Process(target=_worker_main, args=(tasks, results), daemon=True)
+        p.start()
+        procs[p.pid] = p
+
+    for _ in range(jobs):
+        spawn()
+    while pending:
+        try:
+            msg = results.get(timeout=1.0)
+        except queue.Empty:
+            msg = None
+        if msg is not None:
+            if msg[0] == "start":
+                running[msg[2]] = (msg[1], time.time())
+            else:
+                _, idx, res = msg
+                if idx in pending:
+                    pending.discard(idx)
+                    out.append(res)
+                    on_result(res)
+                for pid, (i, _) in list(running.items()):
+                    if i == idx:
+                        del running[pid]
+        now = time.time()
+        for pid, (idx, t0) in list(running.items()):
+            p = procs.get(pid)
+            dead = p is None or not p.is_alive()
+            if dead or now - t0 > limit:
+                if p is not None:
+                    p.kill()
+                    p.join(5)
+                    procs.pop(pid, None)
+                del running[pid]
+                if idx in pending:
+                    pending.discard(idx)
+                    why = ("engine: worker died while running this case" if dead else
+                           f"engine: case exceeded the hard wall limit of {limit:.0f} s (a solver call did not honour its timeout); worker killed")
+                    res = _lost_case(idx, why)
+                    out.append(res)
+                    on_result(res)
+                spawn()
+        if not running and pending and all(not p.is_alive() for p in procs.values()):
+            for idx in list(pending):  # every worker is gone (should not happen): do not wait forever
+                pending.discard(idx)
+                out.append(_lost_case(idx, "engine: no worker left to run this case"))
+    for _ in procs:
+        tasks.put(None)
+    for p in procs.values():
+        p.join(2)
+        if p.is_alive():
+            p.kill()
+    return out
+
+
 # ------------------------------------------------------------------------------------ driver
 
 def load_harness(prop):
@@ -333,12 +415,10 @@ def main(argv=None):
         for i in order:
             results.append(run_case(i))
     else:
-        ctxm = mp.get_context("fork")
-        with ctxm.Pool(min(a.jobs, len(cases))) as pool:
-            for r in pool.imap_unordered(run_case, order, chunksize=1):
-                results.append(r)
-                if a.v:
-                    print(f"  {r['id']}: {r['paths']} paths {r['outcomes']} {r['wall']:.1f}s obl={r['stats']['obligations']} unk={r['stats']['unknown']} cand={len(r['stats']['candidates'])} {r['messages'][:1]} {r['error'] or ''}", flush=True)
+        def show(r):
+            if a.v:
+                print(f"  {r['id']}: {r['paths']} paths {r['outcomes']} {r['wall']:.1f}s obl={r['stats']['obligations']} unk={r['stats']['unknown']} cand={len(r['stats']['candidates'])} {r['messages'][:1]} {r['error'] or ''}", flush=True)
+        results = run_pool(order, min(a.jobs, len(cases)), a.tier, show)
     results.sort(key=lambda r: r["id"])
     # ---------------------------------------------------------------- aggregate
     tot = _new_stats(a.tier)
